@@ -4,11 +4,11 @@
    What is modelled (file:line of the pinned tree):
      Interpret::interp           Interpret.cc:144-380   dispatch, "before set-logic" guards, wrong-mode guards
      t_assert                    Interpret.cc:221-241   parseTerm; assertions.push(tr) BEFORE insertFormula can throw
-     MainSolver::insertFormula   MainSolver.cc:105-128  sort check (throws), insertedFormulasCount++ = partition index
+     MainSolver::insertFormula   MainSolver.cc:131-154  sort check (throws), insertedFormulasCount++ = partition index
      parseTerm / BANG_T          Interpret.cc:521-544   tryAddTermNameFor at the annotation, before the command can still fail
      defineFun/storeDefinedFun   Interpret.cc:951-1020
      declareFun/declareConst     Interpret.cc:880-949   (never scoped; re-declaration is accepted by the code)
-     push / pop                  Interpret.cc:588-625, MainSolver.cc:72-98  pop n pops one by one and stops at the bottom
+     push / pop                  Interpret.cc:588-625, MainSolver.cc:91-124  pop n pops one by one and stops at the bottom
      getAssignment               Interpret.cc:627-648   iterates the name table
      getInterpolants             Interpret.cc:1305-1390 names -> let bindings; partition masks from the INDEX in `assertions`
      SMTConfig::setOption        SMTConfig.cc:349-354   pre-initialisation options are refused after set-logic
